@@ -346,6 +346,8 @@ pub enum Mutn {
     Flip(usize),
     /// replace the bytes of a proof field
     Field(usize, Vec<u8>),
+    /// replace the whole proof (adversarially constructed bytes)
+    Whole(Vec<u8>),
 }
 
 #[derive(Clone, Debug)]
@@ -380,6 +382,7 @@ fn materialise(t: &Triple, honest: &[Honest]) -> (Vec<u8>, Vec<Fe>) {
             let (lo, hi) = m2::field_range(*f);
             b[lo..hi].copy_from_slice(nb);
         }
+        Mutn::Whole(nb) => b = nb.clone(),
     }
     (b, t.pis.clone().unwrap_or_else(|| h.pis.clone()))
 }
@@ -510,6 +513,38 @@ pub fn enumerate(tier: Tier, circs: &[Circ], honest: &[Honest]) -> Vec<Triple> {
             edits.push(("prepended-zero".into(), p));
             for (nm, p) in edits {
                 out.push(Triple { pis: Some(p), class: "pi-edit".into(), what: nm, ..t0.clone() });
+            }
+            // (f) adaptive opening witnesses: `u` is the only challenge the prover
+            // never uses, so no honest proof shows whether it depends on the two
+            // opening commitments. Solve them for the `u` a verifier would draw
+            // BEFORE absorbing them: on the honest proof, on the honest proof with a
+            // wrong public input, and on an all-identity proof.
+            let hb = &honest[b0];
+            if let Ok(pd0) = m2::parse_proof(&hb.bytes) {
+                let mut targets: Vec<(&str, m2::ProofData, Vec<Fe>)> = vec![("honest", pd0.clone(), hb.pis.clone())];
+                if !hb.pis.is_empty() {
+                    let mut wrong = hb.pis.clone();
+                    wrong[0] += one();
+                    targets.push(("wrong-pi", pd0.clone(), wrong));
+                }
+                let mut idp = pd0.clone();
+                for k in 0..11 {
+                    idp.comms[k] = G1Affine::identity();
+                }
+                for e in idp.evals.iter_mut() {
+                    *e = zero();
+                }
+                let mut lie = hb.pis.clone();
+                if !lie.is_empty() {
+                    lie[0] += fe(2);
+                }
+                targets.push(("all-identity", idp, lie));
+                for (nm, pd, pis) in targets {
+                    let ch = m2::challenges_u_before_openings(&circs[ci].vd, &pd, &pis, ver);
+                    if let Some(f) = m2::forge_openings(&circs[ci].vd, &pd, &pis, ver, ch) {
+                        out.push(Triple { m: Mutn::Whole(m2::proof_to_bytes(&f)), pis: Some(pis), class: "adaptive-openings".into(), what: nm.into(), ..t0.clone() });
+                    }
+                }
             }
         }
     }
